@@ -57,7 +57,7 @@ func tokKind(rule string) int {
 	switch rule {
 	case "":
 		return kNamed
-	case "digit", "word", "any":
+	case "digit", "word", "any", "u":
 		return kInter
 	}
 	return kRegex
@@ -246,6 +246,7 @@ func init() {
 		[]string{"/a", "/a/b/c", "/a/b/d", "/a/c", "/a/d", "/a/e", "/a/f", "/a/{x}/g"},            // 27: the same through the first-byte index
 		[]string{"/a/u", "/a/su", "/a/sv"},                                                        // 28: the tail of a split node equals the text of an existing sibling
 		[]string{"/p/d", "/p/{id}/d", "/p/{id}/c", "/p/{id}"},                                     // 29: the same below a parameter
+		[]string{"/i/{n:u}", "/i/{r:[a-c]+}", "/i/{s}", "/i/{n:u}/x", "/w/{m:u}.t"},               // 30: an arbitrary (uninterpreted) user interceptor
 	)
 }
 
